@@ -637,6 +637,7 @@ async fn master_requests(a: &ShardArgs, idx: u64) {
     for _ in 0..r.range(2, 8) {
         // what the user asks for, and (for reads) the header list it must produce
         let mut expect: Option<Vec<(u8, u8, u8, u32, u32)>> = None;
+        let mut expect_open: Option<(String, u16, u32, u32, u16, u16)> = None;
         let req = match r.below(10) {
             9 => {
                 // file requests carry strings with explicit sizes: plain, empty and multi-octet characters
@@ -648,12 +649,22 @@ async fn master_requests(a: &ShardArgs, idx: u64) {
                     "ü",
                     "a-rather-long-name-with-😀-in-it-and-more-text-after-the-emoji.dat",
                 ];
-                UserReq::FileNamed(
-                    r.below(5) as u8,
-                    r.pick(&texts).to_string(),
-                    r.pick(&texts).to_string(),
-                    r.pick(&texts).to_string(),
-                )
+                if r.bool() {
+                    // OPEN_FILE with every field chosen here: the request on the wire must carry these values in their places
+                    let path = r.pick(&texts).to_string();
+                    let bits = r.u16() & 0x1FF;
+                    let (key, size) = (r.u32(), *r.pick(&[0u32, 1, 0xFFFF_FFFF, 123_456]));
+                    let (mode, block) = (r.range(1, 3) as u16, *r.pick(&[1u16, 64, 512, 65535]));
+                    expect_open = Some((path.clone(), bits, key, size, mode, block));
+                    UserReq::FileOpenWith(path, bits, key, size, mode, block)
+                } else {
+                    UserReq::FileNamed(
+                        r.below(5) as u8,
+                        r.pick(&texts).to_string(),
+                        r.pick(&texts).to_string(),
+                        r.pick(&texts).to_string(),
+                    )
+                }
             }
             0 => UserReq::ReadClasses([r.bool(), r.bool(), r.bool(), true]),
             1 | 2 => {
@@ -770,6 +781,38 @@ async fn master_requests(a: &ShardArgs, idx: u64) {
                         }
                     }
                     Err(v) => report(a, "A1", idx, &v, f, &ctx),
+                }
+                // OPEN_FILE: one g70v3 object (free format, qualifier 5B) whose fields are what was asked for
+                if f[1] == 25 {
+                    if let Some((path, bits, key, size, mode, block)) = expect_open.take() {
+                        let o = &f[2..];
+                        let name = path.as_bytes();
+                        let mut want: Vec<u8> = vec![70, 3, 0x5B, 1];
+                        want.extend(((26 + name.len()) as u16).to_le_bytes());
+                        want.extend(26u16.to_le_bytes());
+                        want.extend((name.len() as u16).to_le_bytes());
+                        let time_at = want.len();
+                        want.extend([0u8; 6]); // time of creation: not chosen by the caller, not compared
+                        want.extend(bits.to_le_bytes());
+                        want.extend(key.to_le_bytes());
+                        want.extend(size.to_le_bytes());
+                        want.extend(mode.to_le_bytes());
+                        want.extend(block.to_le_bytes());
+                        let id_at = want.len();
+                        want.extend([0u8; 2]); // request id: the library's, not compared
+                        want.extend(name);
+                        let mut got = o.to_vec();
+                        if got.len() == want.len() {
+                            for k in (time_at..time_at + 6).chain(id_at..id_at + 2) {
+                                got[k] = 0;
+                            }
+                        }
+                        if got != want {
+                            report(a, "A1", idx, &("open_file_request_fields".into(), "open".into(), format!("asked for path {path:?} permissions {bits:#05x} key {key} size {size} mode {mode} block {block}: expected object {} but the request carries {}", hex(&want), hex(o))), f, &ctx);
+                        } else {
+                            out::count("A1_open_file_request_as_asked", 1);
+                        }
+                    }
                 }
                 // READ requests: the header list is what was asked for
                 if f[1] == ra::F_READ {
